@@ -120,6 +120,14 @@ Theorem C14_cost_no_operation : forall (C : Type) (default : fcost C) (ctx0 : C)
   validate_cost C true fuel default ctx0 ops frs opname vars_err max = Done 0 false.
 Proof. exact cost_no_operation. Qed.
 
+(** ** the fuel of the model (nesting of fragment expansions) is never exhausted, for ANY document,
+    valid or not, as soon as it exceeds the number of fragment definitions (the on-path guard) *)
+Theorem C14_never_out_of_fuel : forall (C : Type) (skip_zero : bool) (default : fcost C) (ctx0 : C)
+    (ops : list (option bytes * node C)) (frs : list (bytes * node C)) opname vars_err max fuel,
+  (length frs < fuel)%nat ->
+  validate_cost C skip_zero fuel default ctx0 ops frs opname vars_err max <> ROutOfFuel.
+Proof. exact never_out_of_fuel. Qed.
+
 (** ** stage 1: the abstract cost tree itself, as a fragment-free document *)
 Theorem C14_cost_exact_fragment_free : forall (C : Type) (default : fcost C) (ctx0 : C) ts max,
   forallb costs_ok ts = true -> max <= MaxInt ->
@@ -164,6 +172,7 @@ Print Assumptions C14_cost_accept_iff.
 Print Assumptions C14_cost_overflow_rejected.
 Print Assumptions C14_cost_never_under.
 Print Assumptions C14_cost_no_operation.
+Print Assumptions C14_never_out_of_fuel.
 Print Assumptions C14_cost_exact_fragment_free.
 Print Assumptions C14_expand_sound.
 Print Assumptions C14_connection_edges_le_multiplier.
